@@ -428,6 +428,20 @@ Proof.
     + unfold Rsqr. replace (/ 2 * (s1 + s2) * (/ 2 * (s1 - s2))) with ((s1 * s1 - s2 * s2) / 4) by field. lra.
 Qed.
 
+(** the determinant form of the minor radius is the same number *)
+Lemma svd_variants_agree (m : Affine R) : aff_svd_det m = aff_svd m.
+Proof.
+  destruct (svd_invariants m) as (Hr & Hsum & Hprod).
+  destruct m as [a b c d e f].
+  cbv [aff_svd aff_svd_det aff_determinant aa ab ac ad fst snd vx vy] in *. rs_unfold.
+  match goal with |- (mkVec2 ?x (if Reqb ?x 0 then 0 else Rmin (?n / ?x) ?x), ?g) = (mkVec2 ?x ?y, ?g) =>
+    set (X := x) in *; set (Y := y) in * end.
+  f_equal. f_equal.
+  destruct (Reqb_spec X 0) as [E|E].
+  - rewrite E in Hr. lra.
+  - rewrite <- Hprod. replace (X * Y / X) with Y by (field; exact E). apply Rmin_left. lra.
+Qed.
+
 (** * TranslateScale behaves as the affine map it converts to *)
 
 Lemma ts_apply_as_affine (ts : TranslateScale R) (p : Point R) :
@@ -576,20 +590,102 @@ Proof.
     aff_unfold.
     replace (0 * -1 + 0) with 0 by ring. replace (10 * -1 + 0) with (-10) by ring.
     replace (-1 * 0 + 0 * 0 + 0) with 0 by ring. replace (0 * 0 + -1 * 0 + 0) with 0 by ring.
-    assert (M1 : Rmin 0 (-10) = -10) by minmax. assert (M2 : Rmax 0 (-10) = 0) by minmax.
+    assert (M1 : Rmin 0 (-10) = -10) by (apply Rmin_right; lra). assert (M2 : Rmax 0 (-10) = 0) by (apply Rmax_left; lra).
     rewrite M1, M2.
-    assert (M3 : Rmin (-10) 0 = -10) by minmax. assert (M4 : Rmax (-10) 0 = 0) by minmax.
+    assert (M3 : Rmin (-10) 0 = -10) by (apply Rmin_left; lra). assert (M4 : Rmax (-10) 0 = 0) by (apply Rmax_right; lra).
     rewrite M3, M4.
     replace (0 - -10) with 10 by ring.
-    assert (M5 : Rmin 10 10 / 2 = 5) by minmax. rewrite M5.
+    assert (M5 : Rmin 10 10 / 2 = 5) by (rewrite Rmin_left; lra). rewrite M5.
     replace (-1 * 1) with (-1) by ring. replace (-1 * 2) with (-2) by ring.
     replace (-1 * 3) with (-3) by ring. replace (-1 * 4) with (-4) by ring.
-    assert (A1 : Rabs (-1) = 1) by minmax. assert (A2 : Rabs (-2) = 2) by minmax.
-    assert (A3 : Rabs (-3) = 3) by minmax. assert (A4 : Rabs (-4) = 4) by minmax.
+    assert (A1 : Rabs (-1) = 1) by (rewrite Rabs_left; lra). assert (A2 : Rabs (-2) = 2) by (rewrite Rabs_left; lra).
+    assert (A3 : Rabs (-3) = 3) by (rewrite Rabs_left; lra). assert (A4 : Rabs (-4) = 4) by (rewrite Rabs_left; lra).
     rewrite ?A1, ?A2, ?A3, ?A4.
     replace (1 * 1) with 1 by ring.
-    assert (N1 : Rmin 1 5 = 1) by minmax. assert (N2 : Rmin 2 5 = 2) by minmax.
-    assert (N3 : Rmin 3 5 = 3) by minmax. assert (N4 : Rmin 4 5 = 4) by minmax.
+    assert (N1 : Rmin 1 5 = 1) by (apply Rmin_left; lra). assert (N2 : Rmin 2 5 = 2) by (apply Rmin_left; lra).
+    assert (N3 : Rmin 3 5 = 3) by (apply Rmin_left; lra). assert (N4 : Rmin 4 5 = 4) by (apply Rmin_left; lra).
     rewrite ?N1, ?N2, ?N3, ?N4.
     cbn [In]. intros [E|[E|[E|[E|[]]]]]; injection E; intros; lra.
 Qed.
+
+(** * one lemma per pre_* / then_* method (the model mirrors the code, which defines all but
+    [then_translate] through the product) *)
+Lemma pre_rotate_is_mul (m : Affine R) th : aff_pre_rotate m th = aff_mul m (aff_rotate th).
+Proof. reflexivity. Qed.
+Lemma pre_rotate_about_is_mul (m : Affine R) th c : aff_pre_rotate_about m th c = aff_mul m (aff_rotate_about th c).
+Proof. reflexivity. Qed.
+Lemma pre_scale_is_mul (m : Affine R) s : aff_pre_scale m s = aff_mul m (aff_scale s).
+Proof. reflexivity. Qed.
+Lemma pre_scale_non_uniform_is_mul (m : Affine R) sx sy :
+  aff_pre_scale_non_uniform m sx sy = aff_mul m (aff_scale_non_uniform sx sy).
+Proof. reflexivity. Qed.
+Lemma pre_translate_is_mul (m : Affine R) t : aff_pre_translate m t = aff_mul m (aff_translate t).
+Proof. reflexivity. Qed.
+Lemma then_rotate_is_mul (m : Affine R) th : aff_then_rotate m th = aff_mul (aff_rotate th) m.
+Proof. reflexivity. Qed.
+Lemma then_rotate_about_is_mul (m : Affine R) th c : aff_then_rotate_about m th c = aff_mul (aff_rotate_about th c) m.
+Proof. reflexivity. Qed.
+Lemma then_scale_is_mul (m : Affine R) s : aff_then_scale m s = aff_mul (aff_scale s) m.
+Proof. reflexivity. Qed.
+Lemma then_scale_non_uniform_is_mul (m : Affine R) sx sy :
+  aff_then_scale_non_uniform m sx sy = aff_mul (aff_scale_non_uniform sx sy) m.
+Proof. reflexivity. Qed.
+Lemma then_scale_about_is_mul (m : Affine R) s c : aff_then_scale_about m s c = aff_mul (aff_scale_about s c) m.
+Proof. reflexivity. Qed.
+
+(** the elementary maps act as documented *)
+Lemma elementary_actions (p : Point R) (s sx sy th kx ky : R) (t : Vec2 R) :
+  aff_apply (aff_scale s) p = mkPoint (s * px p) (s * py p)
+  /\ aff_apply (aff_scale_non_uniform sx sy) p = mkPoint (sx * px p) (sy * py p)
+  /\ aff_apply (aff_translate t) p = mkPoint (px p + vx t) (py p + vy t)
+  /\ aff_apply (aff_rotate th) p = mkPoint (cos th * px p - sin th * py p) (sin th * px p + cos th * py p)
+  /\ aff_apply (aff_skew kx ky) p = mkPoint (px p + kx * py p) (ky * px p + py p)
+  /\ aff_apply aff_FLIP_Y p = mkPoint (px p) (- py p) /\ aff_apply aff_FLIP_X p = mkPoint (- px p) (py p).
+Proof. destruct p, t. repeat split; aff_ring. Qed.
+
+(** map_unit_square takes the unit square's corners to the rectangle's corners *)
+Lemma map_unit_square_corners (r : Rect R) :
+  let m := aff_map_unit_square r in
+  aff_apply m (mkPoint 0 0) = mkPoint (rx0 r) (ry0 r) /\ aff_apply m (mkPoint 1 0) = mkPoint (rx1 r) (ry0 r)
+  /\ aff_apply m (mkPoint 0 1) = mkPoint (rx0 r) (ry1 r) /\ aff_apply m (mkPoint 1 1) = mkPoint (rx1 r) (ry1 r).
+Proof.
+  destruct r as [x0 y0 x1 y1]. cbv [aff_map_unit_square rect_width rect_height rx0 ry0 rx1 ry1]. repeat split; aff_ring.
+Qed.
+
+(** transform_rect_bbox contains the image of every point of the (closed) rectangle *)
+Lemma transform_rect_bbox_contains (m : Affine R) (r : Rect R) (p : Point R) :
+  rx0 r <= px p <= rx1 r -> ry0 r <= py p <= ry1 r ->
+  let b := aff_transform_rect_bbox m r in let q := aff_apply m p in
+  rx0 b <= px q <= rx1 b /\ ry0 b <= py q <= ry1 b.
+Proof.
+  destruct m as [a b c d e f], r as [x0 y0 x1 y1], p as [x y]. cbn [rx0 ry0 rx1 ry1 px py]. intros Hx Hy.
+  cbv [aff_transform_rect_bbox rect_from_points rect_abs rect_union rx0 ry0 rx1 ry1]. aff_unfold.
+  assert (Hlin : forall k l u0 u1 v0 v1 u v w, u0 <= u <= u1 -> v0 <= v <= v1 ->
+            Rmin (Rmin (k * u0 + l * v0 + w) (k * u0 + l * v1 + w)) (Rmin (k * u1 + l * v0 + w) (k * u1 + l * v1 + w))
+            <= k * u + l * v + w
+            <= Rmax (Rmax (k * u0 + l * v0 + w) (k * u0 + l * v1 + w)) (Rmax (k * u1 + l * v0 + w) (k * u1 + l * v1 + w))).
+  { intros k l u0 u1 v0 v1 u v w Hu Hv.
+    assert (Hk : Rmin (k * u0) (k * u1) <= k * u <= Rmax (k * u0) (k * u1)) by (destruct (Rle_dec 0 k); minmax; nra).
+    assert (Hl : Rmin (l * v0) (l * v1) <= l * v <= Rmax (l * v0) (l * v1)) by (destruct (Rle_dec 0 l); minmax; nra).
+    split; minmax. }
+  split; apply Hlin; assumption.
+Qed.
+
+(** combined forms used by the property file *)
+Lemma ellipse_new_curve (c : Point R) (radii : Vec2 R) (rot th : R) :
+  ellipse_point (ellipse_new c radii rot) th
+  = pt_add_v c (arc_sample_ellipse (mkVec2 (Rabs (vx radii)) (Rabs (vy radii))) rot th)
+  /\ ellipse_center (ellipse_new c radii rot) = c.
+Proof. split; [apply ellipse_new_point|apply ellipse_new_centre]. Qed.
+
+Lemma ts_inverse_all (ts : TranslateScale R) :
+  ts_scale ts <> 0 ->
+  ts_to_affine (ts_inverse ts) = aff_inverse (ts_to_affine ts)
+  /\ ts_mul ts (ts_inverse ts) = ts_default /\ ts_mul (ts_inverse ts) ts = ts_default.
+Proof. intros H. split; [apply ts_inverse_as_affine|apply ts_inverse_laws]; exact H. Qed.
+
+Lemma ts_circle_all (ts : TranslateScale R) (c : Circle R) (th : R) :
+  circle_point (ts_mul_circle ts c) th = aff_apply (ts_to_affine ts) (circle_point c th)
+  /\ (0 <= ci_radius c ->
+      circle_point (ts_mul_circle ts c) th = ellipse_point (aff_mul_circle (ts_to_affine ts) c) th).
+Proof. split; [apply ts_circle_as_affine|apply ts_circle_vs_ellipse]. Qed.
